@@ -21,12 +21,12 @@ namespace TM
 open Timeout C17
 
 /-- (A) every trace of the model is accepted by the property acceptor -/
-theorem C17_model_accepted (cfg : Cfg) (cur : Nat → Nat) (h : List Op)
+theorem C17_model_accepted (cfg : Cfg) (hk : ∀ m, cfg.key m = m) (cur : Nat → Nat) (h : List Op)
     (hb : (run cfg h (St.init cur)).leaked = false) :
     accepts (specOf cfg) (run cfg h (St.init cur)).log = true := by
-  obtain ⟨q, g⟩ := run_inv cfg h (St.init cur) (init_quiet cur) (fun _ => init_good cfg cur)
+  obtain ⟨q, g⟩ := run_inv cfg hk h (St.init cur) (init_quiet cur) (fun _ => init_good cfg hk cur)
   have g' := g hb
-  simp only [accepts, g'.ok, quiet_of cfg _ g' q, Bool.and_self]
+  simp only [accepts, g'.ok, quiet_of cfg hk _ g' q, Bool.and_self]
 
 /-- what acceptance means, direction "fires ⟹": a firing of (m, s) in an accepted trace is preceded
 by an entry of (m, s) exactly `timeout s` ticks earlier with no entry, exit or firing of (m, s) in
@@ -52,13 +52,13 @@ theorem C17_due_must_fire (sp : Spec) (m s : Nat) (pre mid post : List Rec) (hT 
 
 /-- both directions for the model's own traces: a timeout of (s, m) fires at time t iff the state was
 entered at t − timeout and not left (nor fired) in between -/
-theorem C17_fires_iff (cfg : Cfg) (cur : Nat → Nat) (h : List Op)
+theorem C17_fires_iff (cfg : Cfg) (hk : ∀ m, cfg.key m = m) (cur : Nat → Nat) (h : List Op)
     (hb : (run cfg h (St.init cur)).leaked = false) :
     (∀ pre m s post, (run cfg h (St.init cur)).log = pre ++ .fired m s :: post →
       ∃ pre1 mid, pre = pre1 ++ .enter m s :: mid ∧ 0 < cfg.timeout s ∧ Clean m s mid ∧ ticks mid = cfg.timeout s) ∧
     (∀ pre m s mid post, (run cfg h (St.init cur)).log = pre ++ .enter m s :: (mid ++ post) →
       0 < cfg.timeout s → Clean m s mid → ticks mid ≤ cfg.timeout s ∧ (post = [] → ticks mid < cfg.timeout s)) := by
-  have hacc := C17_model_accepted cfg cur h hb
+  have hacc := C17_model_accepted cfg hk cur h hb
   constructor
   · intro pre m s post e
     rw [e] at hacc
@@ -81,31 +81,31 @@ theorem C17_never_after_exit (sp : Spec) (m s : Nat) (pre mid post : List Rec)
 
 /-- re-entering restarts the period: whatever the slot held, after `exit` + `enter` (and after a bare
 `enter`) it holds a fresh waiting timer due `timeout` from now -/
-theorem C17_restart_on_reenter (cfg : Cfg) (m s : Nat) (st : St) (hT : 0 < cfg.timeout s) :
-    slot (tEnter cfg m s (tExit m s st)) s m
+theorem C17_restart_on_reenter (cfg : Cfg) (hk : ∀ m, cfg.key m = m) (m s : Nat) (st : St) (hT : 0 < cfg.timeout s) :
+    slot (tEnter cfg m s (tExit cfg m s st)) s m
       = some { deadline := st.now + cfg.timeout s, m := m, s := s, phase := .waiting } ∧
     slot (tEnter cfg m s st) s m
       = some { deadline := st.now + cfg.timeout s, m := m, s := s, phase := .waiting } := by
-  have hn := (tExit_fields m s st).2.1
+  have hn := (tExit_fields cfg hk m s st).2.1
   constructor
-  · simp [slot, tEnter, hT, hn]
-  · simp [slot, tEnter, hT]
+  · simp [slot, tEnter, hT, hn, hk m]
+  · simp [slot, tEnter, hT, hk m]
 
 /-- timers of different models are independent: an event on model m leaves the state of every other
 model, the timer in each of its runner slots (deadline and phase) and its records untouched — also
 for two models in the same state -/
-theorem C17_models_independent (cfg : Cfg) (m m' e : Nat) (st : St) (hne : m ≠ m') (hty : Typed st) :
+theorem C17_models_independent (cfg : Cfg) (hk : ∀ m, cfg.key m = m) (m m' e : Nat) (st : St) (hne : m ≠ m') (hty : Typed st) :
     (trigger cfg m e st).cur m' = st.cur m' ∧
     (∀ s, slot (trigger cfg m e st) s m' = slot st s m') ∧
     (∃ seg, (trigger cfg m e st).log = st.log ++ seg ∧ ∀ r ∈ seg, recModel r ≠ some m') ∧
     Typed (trigger cfg m e st) := by
-  have f := trigger_frame cfg m m' e st hne hty
+  have f := trigger_frame cfg hk m m' e st hne hty
   exact ⟨f.cur, f.slot, f.log, f.typed⟩
 
 /-- the typing hypothesis of the frame theorem holds in every reachable state -/
-theorem C17_typed_reachable (cfg : Cfg) (cur : Nat → Nat) (h : List Op)
+theorem C17_typed_reachable (cfg : Cfg) (hk : ∀ m, cfg.key m = m) (cur : Nat → Nat) (h : List Op)
     (hb : (run cfg h (St.init cur)).leaked = false) : Typed (run cfg h (St.init cur)) :=
-  ((run_inv cfg h (St.init cur) (init_quiet cur) (fun _ => init_good cfg cur)).2 hb).typed
+  ((run_inv cfg hk h (St.init cur) (init_quiet cur) (fun _ => init_good cfg hk cur)).2 hb).typed
 
 /-- internal transitions keep the timer: nothing at all changes -/
 theorem C17_internal_keeps_timer (cfg : Cfg) (m e : Nat) (st : St)
@@ -124,14 +124,14 @@ theorem C17_reject_missing_handler (timeout : Nat) (onTimeout : Option Nat) :
 exits — including its own state, whose `exit` calls `cancel()` on the running timer — the handler
 runs to its end (`firedEnd` closes the firing), and that `cancel()` is without effect.  `hq`: no
 callback of the triggered transitions lets an exception escape into the handler -/
-theorem C17_async_started_handler_survives (cfg : Cfg) (i : Nat) (st : St) (t : Timer)
+theorem C17_async_started_handler_survives (cfg : Cfg) (hk : ∀ m, cfg.key m = m) (i : Nat) (st : St) (t : Timer)
     (hi : st.timers[i]? = some t) (hw : t.phase = .waiting) (hr : cfg.raises t.s = false)
     (hq : ∀ s e prog d, cfg.resolve s e ≠ some (.move prog d true)) :
     (∃ mid, (fire cfg i st).log = st.log ++ .fired t.m t.s :: mid ++ [.firedEnd t.m t.s]) ∧
     (∀ (st' : St) (t' : Timer), st'.runner t.s t.m = some i → st'.timers[i]? = some t' → t'.phase = .running →
-      (tExit t.m t.s st').timers = st'.timers) := by
+      (tExit cfg t.m t.s st').timers = st'.timers) := by
   constructor
-  · obtain ⟨mid, h⟩ := fire_log cfg i st t hi hw
+  · obtain ⟨mid, h⟩ := fire_log cfg hk i st t hi hw
     have hnr : handlerRaises cfg st i t = false := by
       unfold handlerRaises
       cases cfg.action t.s with
@@ -146,15 +146,15 @@ theorem C17_async_started_handler_survives (cfg : Cfg) (i : Nat) (st : St) (t : 
         · rfl
     exact ⟨mid, by rw [h, hnr, hr]; simp⟩
   · intro st' t' h1 h2 h3
-    exact tExit_running t.m t.s i st' t' h1 h2 h3
+    exact tExit_running cfg hk t.m t.s i st' t' h1 h2 h3
 
 /-- a failing handler is routed to on_exception (async class, machine with on_exception callbacks):
 the firing closes with `raised` immediately followed by `routed` -/
-theorem C17_async_error_routed (cfg : Cfg) (i : Nat) (st : St) (t : Timer)
+theorem C17_async_error_routed (cfg : Cfg) (hk : ∀ m, cfg.key m = m) (i : Nat) (st : St) (t : Timer)
     (hi : st.timers[i]? = some t) (hw : t.phase = .waiting) (hr : cfg.raises t.s = true)
     (ha : cfg.async = true) (he : cfg.onExc = true) :
     ∃ mid, (fire cfg i st).log = st.log ++ .fired t.m t.s :: mid ++ [.raised t.m t.s, .routed t.m t.s] := by
-  obtain ⟨mid, h⟩ := fire_log cfg i st t hi hw
+  obtain ⟨mid, h⟩ := fire_log cfg hk i st t hi hw
   exact ⟨mid, by rw [h]; simp [hr, ha, he]⟩
 
 /-! ### non-vacuity and the counterexample -/
@@ -192,7 +192,7 @@ example : (run c17Cfg c17Hist (St.init fun _ => 2)).log =
      .fired 0 1, .exit 0 1, .enter 0 2, .firedEnd 0 1, .tick] := by decide
 
 example : accepts (specOf c17Cfg) (run c17Cfg c17Hist (St.init fun _ => 2)).log = true :=
-  C17_model_accepted c17Cfg _ c17Hist (by decide)
+  C17_model_accepted c17Cfg (fun _ => rfl) _ c17Hist (by decide)
 
 /-- the acceptor is not trivial: a late firing, a firing after the exit, a second firing, a missed
 firing and an unfinished handler are all rejected -/
@@ -216,6 +216,44 @@ theorem C17_unbracketed_counterexample :
     (run c17LeakCfg [.ev 0 0, .tick [], .ev 0 0, .ev 0 1, .tick [], .tick []] (St.init fun _ => 2)).leaked = true ∧
     accepts (specOf c17LeakCfg)
       (run c17LeakCfg [.ev 0 0, .tick [], .ev 0 0, .ev 0 1, .tick [], .tick []] (St.init fun _ => 2)).log = false := by
+  decide
+
+
+/-! ### the runner key
+
+`Cfg.key` is the key under which a state's `runner` dict files a model's timer; the code uses
+`id(model)`, i.e. the identity (hypothesis `hk` of the theorems above; it is the default of the
+structure, so every configuration built without naming `key` has it). -/
+
+/-- two models 0 and 1, one state 1 with timeout 2; event 0 enters it, event 1 leaves it -/
+def c17TwoCfg (key : Nat → Nat) : Cfg :=
+  { timeout := fun s => if s = 1 then 2 else 0, action := fun _ => none, raises := fun _ => false,
+    onExc := false, async := true, key := key,
+    resolve := fun s e => if e = 0 ∧ s = 2 then some (.move [(false, 2), (true, 1)] 1 false)
+                          else if e = 1 ∧ s = 1 then some (.move [(false, 1), (true, 2)] 2 false) else none }
+
+/-- model 0 enters at 0, model 1 enters at 1, model 0 leaves at 1 (before its timeout), then time passes:
+each model enters and leaves on its own, strictly alternating -/
+def c17TwoHist : List Op := [.ev 0 0, .tick [], .ev 1 0, .ev 0 1, .tick [], .tick [], .tick []]
+
+/-- with the identity key the two models do not interfere: model 0 never times out, model 1 does, on time -/
+example : (run (c17TwoCfg id) c17TwoHist (St.init fun _ => 2)).log =
+    [.exit 0 2, .enter 0 1, .tick, .exit 1 2, .enter 1 1, .exit 0 1, .enter 0 2, .tick, .tick,
+     .fired 1 1, .firedEnd 1 1, .tick] := by decide
+
+example : accepts (specOf (c17TwoCfg id)) (run (c17TwoCfg id) c17TwoHist (St.init fun _ => 2)).log = true :=
+  C17_model_accepted (c17TwoCfg id) (fun _ => rfl) _ c17TwoHist (by decide)
+
+/-- a coarser key (two distinct models that compare equal share one runner slot: a dict keyed by the
+model object instead of `id(model)`) breaks independence: model 1's entry overwrites the slot, model
+0's exit cancels model 1's timer, model 0's orphaned timer fires after model 0 has left the state and
+model 1 never times out — the acceptor rejects the trace although every model enters and leaves the
+state strictly alternately -/
+theorem C17_coarse_key_counterexample :
+    (run (c17TwoCfg fun _ => 0) c17TwoHist (St.init fun _ => 2)).log =
+      [.exit 0 2, .enter 0 1, .tick, .exit 1 2, .enter 1 1, .exit 0 1, .enter 0 2, .tick,
+       .fired 0 1, .firedEnd 0 1, .tick, .tick] ∧
+    accepts (specOf (c17TwoCfg fun _ => 0)) (run (c17TwoCfg fun _ => 0) c17TwoHist (St.init fun _ => 2)).log = false := by
   decide
 
 end TM
